@@ -1,4 +1,7 @@
 SPECIFICATION Spec
+CONSTANTS AsFoundJoin = FALSE AsFoundOrder = FALSE
 INVARIANT IdentityShape
 INVARIANT DesignationIrrelevant
+INVARIANT NeverWrongIdentity
+INVARIANT PromisedSucceeds
 CHECK_DEADLOCK FALSE
